@@ -9,7 +9,7 @@ from .. import gen, monitors
 PID = "C15"
 ANCHORS = ["roc_curve.py:roc", "roc_curve.py:_find_support_thresholds", "roc_curve.py:ROCCurve.tpr", "roc_curve.py:ROCCurve.tnr"]
 RAISES_ARE_VIOLATIONS = True
-DECIDING = {"M-roc": 30000}
+DECIDING = {"M-roc": 24325}
 THOROUGH_EXTRA = ["W2"]
 RULE = (
     "Every roc() call (module function and the name re-exported by the package) is observed by M-roc: equal lengths; curve.fnr/fpr == the "
